@@ -472,6 +472,18 @@ theorem noLeaf_of_cands_nil (s : KState) (h : s.cands = []) : NoLeaf s := by
   have := List.filter_eq_nil_iff.1 h n hn
   simpa using this
 
+theorem mem_cands_products (s : KState) (a : Node) (ha : a ∈ s.cands) :
+    ∀ m ∈ s.cores, ¬ (m.2.1 = some a.key ∧ m.1 ≠ a.key) := by
+  rw [cands_eq, List.mem_filter] at ha
+  obtain ⟨_, hl⟩ := ha
+  unfold isLeaf at hl
+  simp only [decide_eq_true_eq] at hl
+  intro m hm
+  have := List.all_eq_true.1 hl.2.1 m hm
+  intro hc
+  simp only [Node.core_key, Bool.not_eq_true'] at this
+  exact (decide_eq_false_iff_not.1 this) hc
+
 theorem mem_cands (s : KState) (a : Node) (ha : a ∈ s.cands) :
     a ∈ s.nodes ∧ a.core ∈ s.cores ∧ a.detached = true ∧ (∀ d ∈ s.deps, d.src ≠ a.key) := by
   rw [cands_eq, List.mem_filter] at ha
@@ -483,6 +495,17 @@ theorem mem_cands (s : KState) (a : Node) (ha : a ∈ s.cands) :
   have := hl.2.2
   simp only [Bool.not_eq_true', List.any_eq_false] at this
   exact this d hd (decide_eq_true hsrc)
+
+/-- A node that the deletion loop must reach: every row with this key is detached, and all its
+products and all its dependency sinks are themselves deletable.  (Well-founded: no attached node
+and no cycle of creator and dependency edges is reachable from it.) -/
+inductive Deletable (s : KState) : Key → Prop
+  | mk (k : Key) (hdet : ∀ c ∈ s.cores, c.1 = k → c.2.2.1 = true)
+      (hp : ∀ c ∈ s.cores, c.2.1 = some k → c.1 ≠ k → Deletable s c.1)
+      (hs : ∀ d ∈ s.deps, d.src = k → Deletable s d.snk) : Deletable s k
+
+/-- Every dependency edge ends in an existing node (foreign key of the `dependency` table). -/
+def SinksExist (s : KState) : Prop := ∀ d ∈ s.deps, s.hasKey d.snk
 
 /-- Invariant of the deletion loop, relative to the state `s0` it started from: `D` are the keys
 deleted so far, `cs` the remembered creators. -/
@@ -496,6 +519,7 @@ structure BaseInv (s0 st : KState) (cs D : List Key) : Prop where
   keep : ∀ e ∈ s0.toBeDeleted, ∃ e' ∈ st.toBeDeleted, e'.1 = e.1
   complete : KeysNodup s0 → ∀ c ∈ s0.cores, c.1 ∈ D → ∀ e, FileEntryOf c e → ∃ e' ∈ st.toBeDeleted, e'.1 = e.1
   creators : KeysNodup s0 → ∀ c ∈ s0.cores, c.1 ∈ D → ∀ x, c.2.1 = some x → st.hasKey x → x ∈ cs
+  deletable : KeysNodup s0 → ∀ k ∈ D, Deletable s0 k
 
 theorem baseInv_init (s : KState) : BaseInv s s [] [] where
   cores := (List.filter_eq_self.2 (fun _ _ => rfl)).symm
@@ -506,6 +530,7 @@ theorem baseInv_init (s : KState) : BaseInv s s [] [] where
   keep := fun e he => ⟨e, he, rfl⟩
   complete := fun _ _ _ h => by simp at h
   creators := fun _ _ _ h => by simp at h
+  deletable := fun _ _ h => by simp at h
 
 theorem baseInv_sub (s0 st : KState) (cs D : List Key) (h : BaseInv s0 st cs D) :
     ∀ c ∈ st.cores, c ∈ s0.cores := by
@@ -612,7 +637,33 @@ theorem baseInv_step (s0 st st' : KState) (cs D csp : List Key) (b : Bool) (h : 
           refine Or.inl (ps.creators_complete a ha x ?_ ?_)
           · rw [← hx, ← hca]; rfl
           · intro a' ha' hk
-            exact hxn (List.mem_map.2 ⟨a', ha', hk⟩) } 
+            exact hxn (List.mem_map.2 ⟨a', ha', hk⟩)
+      deletable := by
+        intro hnd k hk
+        simp only [List.mem_append, List.mem_map] at hk
+        rcases hk with hk | ⟨a, ha, rfl⟩
+        · exact h.deletable hnd k hk
+        · obtain ⟨_, hac, hdet, hnodep⟩ := mem_cands st a ha
+          have hac0 := baseInv_sub s0 st cs D h _ hac
+          refine Deletable.mk a.key ?_ ?_ ?_
+          · intro c hc hck
+            have : c = a.core := core_unique s0 hnd _ _ hc hac0 hck
+            rw [this]; exact hdet
+          · intro c hc hcr hne
+            -- a product of `a` in `s0` is no longer in `st`, hence deleted earlier
+            have hnot : c ∉ st.cores := fun hcs => mem_cands_products st a ha c hcs ⟨hcr, hne⟩
+            have hcD : c.1 ∈ D := by
+              rw [h.cores, List.mem_filter] at hnot
+              have : ¬ ((!D.contains c.1) = true) := fun hh => hnot ⟨hc, hh⟩
+              simpa using this
+            exact h.deletable hnd c.1 hcD
+          · intro d hd hsrc
+            have hnot : d ∉ st.deps := fun hds => hnodep d hds hsrc
+            have hdD : d.snk ∈ D := by
+              rw [h.deps, List.mem_filter] at hnot
+              have : ¬ ((!D.contains d.snk) = true) := fun hh => hnot ⟨hd, hh⟩
+              simpa using this
+            exact h.deletable hnd d.snk hdD }
 
 
 theorem cores_length (s : KState) : s.cores.length = s.nodes.length := by
@@ -803,6 +854,7 @@ structure BaseSpec (s s' : KState) (D : List Key) : Prop where
   noLeaf : NoLeaf s'
   lost : KeysNodup s → ∀ c ∈ s.cores, c.1 ∈ D → ∀ x, c.2.1 = some x → x.kind = .step →
     ∀ n ∈ s'.nodes, n.key = x → n.shash = none
+  deletable : KeysNodup s → ∀ k ∈ D, Deletable s k
 
 theorem deleteDetachedBase_spec (s s' : KState) (h : s.deleteDetachedBase = .ok s') :
     ∃ D, BaseSpec s s' D := by
@@ -843,19 +895,9 @@ theorem deleteDetachedBase_spec (s s' : KState) (h : s.deleteDetachedBase = .ok 
               rw [← g1]
               exact List.mem_map.2 ⟨n, hn, rfl⟩
             have := hI.creators hnd c hc hcD x hx hxk
-            exact g4 n hn (hnx ▸ this) (hnx ▸ hkind) }
+            exact g4 n hn (hnx ▸ this) (hnx ▸ hkind)
+          deletable := hI.deletable }
 
-
-/-- A node that the deletion loop must reach: every row with this key is detached, and all its
-products and all its dependency sinks are themselves deletable.  (Well-founded: no attached node
-and no cycle of creator and dependency edges is reachable from it.) -/
-inductive Deletable (s : KState) : Key → Prop
-  | mk (k : Key) (hdet : ∀ c ∈ s.cores, c.1 = k → c.2.2.1 = true)
-      (hp : ∀ c ∈ s.cores, c.2.1 = some k → c.1 ≠ k → Deletable s c.1)
-      (hs : ∀ d ∈ s.deps, d.src = k → Deletable s d.snk) : Deletable s k
-
-/-- Every dependency edge ends in an existing node (foreign key of the `dependency` table). -/
-def SinksExist (s : KState) : Prop := ∀ d ∈ s.deps, s.hasKey d.snk
 
 theorem deletable_removed (s s' : KState) (D : List Key) (hspec : BaseSpec s s' D) (hcl : SinksExist s)
     (k : Key) (hk : Deletable s k) : ¬ s'.hasKey k := by
